@@ -146,6 +146,36 @@ def _var_kind(ini):
     return None
 
 
+def cfg_eval(text, features):
+    """value of a `cfg!( .. )` condition (all / any / not / feature = "..") for a set of enabled features"""
+    t = re.sub(r"\s+", "", text)
+
+    def split(x):
+        out, d, cur = [], 0, ""
+        for ch in x:
+            d += ch == "("
+            d -= ch == ")"
+            if ch == "," and d == 0:
+                out.append(cur)
+                cur = ""
+            else:
+                cur += ch
+        if cur:
+            out.append(cur)
+        return out
+
+    def ev_(e_):
+        m = re.match(r"^(all|any|not)\((.*)\)$", e_)
+        if m:
+            vals = [ev_(x) for x in split(m.group(2))]
+            return all(vals) if m.group(1) == "all" else (any(vals) if m.group(1) == "any" else not vals[0])
+        m = re.match(r'^feature="([\w-]+)"$', e_)
+        if m:
+            return m.group(1) in features
+        raise Unknown("cfg condition " + e_)
+    return ev_(t)
+
+
 def _param_kind(ty):
     t = str(ty or "")
     if re.search(r"\b(Iterator|Peekable|Chars|CharIndices|Bytes|Split\w*|IntoIter|Iter|IterMut|Enumerate|Lines)\b", t):
@@ -1031,6 +1061,8 @@ class AEval(dtable.Eval):
             finally:
                 _back(env, e2, params)
         if p == "cfg":
+            if getattr(self, "cfg_raw", None) is not None:
+                return B(bool(self.cfg_raw(tok_text(e["tokens"]) if "tokens" in e else show(e))))          # (the condition as written, parentheses kept)
             if self.cfg is not None:
                 return B(bool(self.cfg(_flatp(tok_text(e["tokens"])) if "tokens" in e else _flatp(show(e)))))
             raise Unknown("cfg!")
